@@ -239,3 +239,13 @@ def positional(c, args):
     if a.vararg is not None and a.vararg.arg in args:
         pos.extend(args[a.vararg.arg])
     return pos
+
+
+def run_script(script, python=loader.REPLAY_PY):
+    """run a witness script (a history of calls on the real modules) in the interpreter the test-suite uses"""
+    pre = "import sys\nsys.path.insert(0, %r)\n" % loader.REPO_SRC
+    try:
+        r = subprocess.run([python, "-c", pre + script], capture_output=True, text=True, timeout=300)
+    except Exception as e:
+        return "replay failed: %r" % e
+    return (r.stdout.strip() or r.stderr.strip()[-600:])[-1200:]
